@@ -663,7 +663,7 @@ pub fn def() -> CheckDef {
                out-of-bounds / price-derived (sentinel) bounds, swaps and clock steps to create owed fees and rewards; a model predicts accept/reject exactly for \
                open, open-bundled, close, reset-range, lock, transfer-locked and delete-bundle and checks post-conditions (supply 1, no mint authority, holder \
                amount 1, resolved range recomputed from the price by search, checkpoints zero after reset, frozen token after lock/transfer, bundle bitmap == open \
-               set after every op); locked positions must refuse decrease / reposition and must allow collects.  Non-trivial = lifecycle with a lock or bundle \
+               set after every op); locked positions must refuse decrease / reposition and must allow collects; an accepted reposition must be to a different valid range (the full range on full-range-only pools) and store it.  Non-trivial = lifecycle with a lock or bundle \
                op and >=1 predicted rejection.",
         assumptions: vec!["nsvm runtime as in DESIGN.md §5", "the Metaplex CPI of *_with_metadata is a stub; nothing is asserted about metadata accounts"],
         subs: vec![sub("lifecycles", 40_000, 1_000_000, case_strategy, |c: &LifeCase, l: &mut Local| check_case(c, l))],
